@@ -1,8 +1,146 @@
 (** CmdC18.v — command table of the model runner for property C18
-    (commands 1800 .. 1899 of [run_cmd]; local number = c mod 100). *)
-From JSL Require Import Base.
+    (commands 1800 .. 1899 of [run_cmd]; local number = c mod 100).
+
+    ftype    = 0 operations | 1 machines | 2 jobs
+    focfg    = [kind; feature_types?]          ([] = None, [[t ...]] = given)
+    config   = [focfgs; reward; updater; filter; render_mode; render_cfg; padding]
+    space    = [nodes; edges; [[t; rows; cols] ...]]
+    obs      = [] (the call raised) | [mask; edge_index; [[t; matrix] ...]; in declared space?]
+    params   = as in CmdC19 *)
+From JSL Require Import Base Instance Dstate Graph Generator EnvSpaces CmdC19.
+
+Definition dec_ftype (v : val) : ftype :=
+  match asN v with 0%nat => FOps | 1%nat => FMachines | _ => FJobs end.
+Definition enc_ftype (t : ftype) : val := vnat (ftype_code t).
+Definition dec_focfg (v : val) : focfg := mkfo (asN (vnth v 0)) (asOpt (asLof dec_ftype) (vnth v 1)).
+Definition enc_focfg (c : focfg) : val := VL [vnat (fo_kind c); vopt (vlist enc_ftype) (fo_req c)].
+Definition dec_config (v : val) : config :=
+  mkcfg (asLof dec_focfg (vnth v 0)) (asZ (vnth v 1)) (asLof asZ (vnth v 2)) (asLof asZ (vnth v 3))
+        (asZ (vnth v 4)) (asZ (vnth v 5)) (asB (vnth v 6)).
+Definition enc_config (c : config) : val :=
+  VL [vlist enc_focfg (c_feats c); VI (c_reward c); vlist VI (c_updater c); vlist VI (c_filter c);
+      VI (c_render_mode c); VI (c_render_cfg c); vbool (c_padding c)].
+Definition enc_space (s : ospace) : val :=
+  VL [vnat (sp_nodes s); vnat (sp_edges s);
+      vlist (fun x => VL [enc_ftype (fst x); vnat (fst (snd x)); vnat (snd (snd x))]) (sp_feats s)].
+Definition enc_matrix (m : list (list Z)) : val := vlist (vlist VI) m.
+Definition dec_matrix (v : val) : list (list Z) := asLof (asLof asZ) v.
+Definition enc_feats (fs : list (ftype * list (list Z))) : val :=
+  vlist (fun x => VL [enc_ftype (fst x); enc_matrix (snd x)]) fs.
+Definition dec_feats (v : val) : list (ftype * list (list Z)) :=
+  asLof (fun x => (dec_ftype (vnth x 0), dec_matrix (vnth x 1))) v.
+Definition enc_obs (sp : ospace) (o : option (obsv Z)) : val :=
+  match o with
+  | None => VL []
+  | Some x => VL [vlist vbool (ob_removed x); enc_matrix (ob_edge x); enc_feats (ob_feats x);
+                  vbool (obs_contains sp x)]
+  end.
+
+(** 1: the action space. [I; jnext; probes] ->
+    [nvec; start; legal decisions; each legal decision contained?; each probe contained?] *)
+Definition cmd_action (v : val) : val :=
+  let I := dec_instance (vnth v 0) in
+  let d := mkd [] (asLof asN (vnth v 1)) [] [] in
+  let legal := legal_decisions I d in
+  VL [vlist VI (action_nvec I); vlist VI action_start; vlist (vlist VI) legal;
+      vlist (fun a => vbool (action_contains (action_nvec I) a)) legal;
+      vlist (fun a => vbool (action_contains (action_nvec I) (asLof asZ a))) (asL (vnth v 2))].
+
+(** The observations of one episode of an inner environment: reset, then one
+    per step; a step = [remove_node calls; composite features]. *)
+Fixpoint episode_obs (observe : inner -> list (ftype * list (list Z)) -> option (obsv Z))
+         (sp : ospace) (e : inner) (steps : list val) : list val :=
+  match steps with
+  | [] => []
+  | s :: t =>
+      let e' := inner_removes e (asLof asN (vnth s 0)) in
+      enc_obs sp (observe e' (dec_feats (vnth s 1))) :: episode_obs observe sp e' t
+  end.
+
+(** 2: the single environment. [I; builder; config; episodes], episode = list of
+    [removes; features] (the first entry is the reset: no removes) ->
+    [built?; space; action nvec; observations per episode] *)
+Definition cmd_single (v : val) : val :=
+  let I := dec_instance (vnth v 0) in
+  match build_inner (asN (vnth v 1)) (dec_config (vnth v 2)) I with
+  | None => VL [vbool false]
+  | Some e =>
+      VL [vbool true; enc_space (i_space e); vlist VI (i_anvec e);
+          vlist (fun ep => VL (episode_obs inner_observe (i_space e) (inner_reset e) (asL ep)))
+                (asL (vnth v 3))]
+  end.
+
+(** 3: the multi environment on the instances the real generator produced
+    (replayed through the generator model on the streams that spell them
+    out). [params; builder; config; max-size instance; episodes], episode =
+    [instance; list of [removes; inner features]] ->
+    [constructed? (0 | 1); declared space; declared action nvec; per episode
+     [reset ok?; inner config; inner space; inner action nvec; inner sizes fit?; observations]] *)
+Fixpoint list_eqb {A : Type} (eqb : A -> A -> bool) (a b : list A) : bool :=
+  match a, b with
+  | [], [] => true
+  | x :: a', y :: b' => eqb x y && list_eqb eqb a' b'
+  | _, _ => false
+  end.
+Definition op_eqb (a b : op) : bool :=
+  list_eqb Nat.eqb (machines a) (machines b) && (duration a =? duration b).
+Definition instance_eqb (a b : instance) : bool := list_eqb (list_eqb op_eqb) a b.
+
+(** the generator model, run on a stream, produced exactly [I] *)
+Definition gen_exact (r : res ginst) (I : instance) : option gst :=
+  match r with
+  | Ok x g => if instance_eqb (snd x) I then Some g else None
+  | _ => None
+  end.
+
+Definition multi_episode (p : params) (m : menv) (g : gst) (ep : val) : val * menv * gst :=
+  let I := dec_instance (vnth ep 0) in
+  match multi_reset true m (set_rng g (encode p I)) with
+  | Ok (Some m') g' =>
+      if instance_eqb (g_inst (i_graph0 (m_inner m'))) I then
+        let e := m_inner m' in
+        (VL [vbool true; enc_config (i_cfg e); enc_space (i_space e); vlist VI (i_anvec e);
+             vbool (space_fits (i_space e) (m_space m'));
+             VL (episode_obs (fun e' fs => multi_observe (-1) (set_inner m' e') fs)
+                             (m_space m') e (asL (vnth ep 1)))],
+         m', g')
+      else (VL [vbool false], m, g)
+  | _ => (VL [vbool false], m, g)
+  end.
+
+Fixpoint multi_episodes (p : params) (m : menv) (g : gst) (eps : list val) : list val :=
+  match eps with
+  | [] => []
+  | ep :: t => let r := multi_episode p m g ep in
+               fst (fst r) :: multi_episodes p (snd (fst r)) (snd r) t
+  end.
+
+Definition cmd_multi (v : val) : val :=
+  let p := dec_params (vnth v 0) in
+  let Imax := dec_instance (vnth v 3) in
+  match multi_init p (asN (vnth v 1)) (dec_config (vnth v 2)) (fresh (skipn 2 (encode p Imax))) with
+  | Ok (Some m) g =>
+      if instance_eqb (g_inst (i_graph0 (m_inner m))) Imax then
+        VL [VI 1; enc_space (m_space m); vlist VI (m_anvec m);
+            VL (multi_episodes p m g (asL (vnth v 4)))]
+      else VL [VI 0]
+  | _ => VL [VI 0]
+  end.
+
+(** 4: add_padding on its own. list of [1; fill; n; vector] | [2; fill; r; c; matrix] ->
+    [] (raised) | [result] *)
+Definition cmd_padding (v : val) : val :=
+  vlist (fun c =>
+    match asZ (vnth c 0) with
+    | 1 => vopt (vlist VI) (pad1 (asZ (vnth c 1)) (asN (vnth c 2)) (asLof asZ (vnth c 3)))
+    | _ => vopt enc_matrix (pad2 (asZ (vnth c 1)) (asN (vnth c 2)) (asN (vnth c 3)) (dec_matrix (vnth c 4)))
+    end) (asL v).
 
 Definition run_c18 (c : Z) (v : val) : val :=
   match c with
+  | 1 => cmd_action v
+  | 2 => cmd_single v
+  | 3 => cmd_multi v
+  | 4 => cmd_padding v
   | _ => VL []
   end.
